@@ -18,15 +18,26 @@ A scenario (JSON-able):
      "rc": i,                            # the application gives the request up -- request.response.cancel(), what
                                          # asyncio.wait_for does on time-out -- just before arrival i (0 = before
                                          # the first response; later the future is complete and nothing changes)
-     "arrivals": [[gap, "M", code, obs|None, id] | [gap, "X", k]]}
+     "tuning": kind,                     # the request's transport_tuning as the application passes it
+                                         # (c07_pipe.TUNINGS: none, instance, the classes Reliable / Unreliable, ...)
+     "at": [ticks, ...],                 # harness clock (standing in for `time` inside aiocoap.protocol) at each
+                                         # arrival, in ticks of 2**-20 s; default: the clock stands still
+     "others": [[when, remote], ...],    # further requests of the application (plain GETs, never answered) to the
+                                         # observation's peer (remote 0) or to another one (remote 1), registered
+                                         # just before arrival `when` (0 = while the observing request awaits its
+                                         # first response; -1 = before the observing request itself, which then is
+                                         # the NEWEST entry of the token manager)
+     "arrivals": [[gap, "M", code, obs|None, id] | [gap, "X", k(, remote)]]}
 `gap` = event-loop iterations the harness yields before that arrival (0 = back to back with the
 previous one, i.e. while nobody else has run); `k`: 0 = the message layer reports a Reset of the
-request (MessageError), 1 = ConRetransmitsExceeded, 2 = NetworkError through `dispatch_error`.
+request (MessageError), 1 = ConRetransmitsExceeded, 2 = NetworkError through `dispatch_error`, for the
+observation's peer or (remote = 1) for the other peer.
 This level is judged by the oracle only.
 """
 import asyncio
 
-from c07_pipe import EXC_NAMES, rfc_fresher, is_notification
+from c07_pipe import (EXC_NAMES, RFC_RESET_TICKS, TICK, Clock, rfc_fresher, is_notification, make_tuning,
+                      tuned_reset_ticks)
 
 
 class FakeRemote:
@@ -89,6 +100,16 @@ class AppBench:
         return {1: e.ConRetransmitsExceeded(), 2: e.NetworkError("harness")}[k]
 
     async def run(self, sc):
+        import aiocoap.protocol as P
+        clock = Clock()
+        saved_time = P.time
+        P.time = clock
+        try:
+            return await self._run(sc, clock)
+        finally:
+            P.time = saved_time
+
+    async def _run(self, sc, clock):
         A = self.A
         loop = asyncio.get_running_loop()
         loop_errors = []
@@ -101,7 +122,21 @@ class AppBench:
         tman.token_interface = ti
         ctx.request_interfaces.append(tman)
         remote = FakeRemote()
-        msg = A.Message(code=A.GET, observe=0, uri_path=("obs",))
+        remotes = [remote, FakeRemote()]
+        remotes[1].hostinfo, remotes[1].uri_base, remotes[1].blockwise_key = "other.example", "coap://other.example", "o"
+        others = []                      # [remote index, request] of the application's further requests
+
+        def start_others(when):
+            for w, rem in sc.get("others") or []:
+                if w == when:
+                    m2 = A.Message(code=A.GET, uri_path=("other", str(len(others))))
+                    m2.remote = remotes[rem]
+                    r2 = ctx.request(m2, handle_blockwise=False)
+                    r2.response.add_done_callback(lambda f: f.cancelled() or f.exception())
+                    others.append([rem, r2])
+
+        start_others(-1)
+        msg = A.Message(code=A.GET, observe=0, uri_path=("obs",), transport_tuning=make_tuning(A, sc.get("tuning")))
         msg.remote = remote
         req = ctx.request(msg, handle_blockwise=sc["blockwise"])
         seen = []          # ("item", id) | ("stop",) | ("raise", name) | ("eb", name)
@@ -184,11 +219,15 @@ class AppBench:
         await turn(6)                       # BlockwiseRequest sends from its task
         if not ti.sent:
             raise RuntimeError("request was not sent")
-        sent = ti.sent[-1]
+        mine = [i for i, m in enumerate(ti.sent) if m.opt.observe == 0]
+        if len(mine) != 1:
+            raise RuntimeError("observing request not found among what was sent")
+        sent = ti.sent[mine[0]]
         consumer = None
         resp = None
         pending = None
         snapshot = []
+        other_states = []
         after_shutdown = None
         open_delay = sc.get("open", 0)
 
@@ -220,6 +259,11 @@ class AppBench:
                 if a is None:
                     break
                 await turn(a[0])
+                if any(w == idx for w, _ in sc.get("others") or []):
+                    start_others(idx)
+                    await turn(2)
+                if sc.get("at"):
+                    clock.now = 1000.0 + sc["at"][idx] * TICK
                 try:
                     if a[1] == "M":
                         m = A.Message(code=A.Code(a[2]), payload=str(a[4]).encode())
@@ -229,9 +273,9 @@ class AppBench:
                         m.remote = remote
                         tman.process_response(m)
                     elif a[2] == 0:
-                        ti.monitors[-1]()       # the message layer reports a Reset of the request
+                        ti.monitors[mine[0]]()       # the message layer reports a Reset of the request
                     else:
-                        tman.dispatch_error(self.make_exc(a[2]), remote)
+                        tman.dispatch_error(self.make_exc(a[2]), remotes[a[3] if len(a) > 3 else 0])
                 except Exception as e:
                     escaped.append((idx, type(e).__name__))
                 if consumer is None and sc["consumer"] in ("iter", "poll"):
@@ -249,6 +293,11 @@ class AppBench:
                     consumer.cancel()
                 await asyncio.gather(consumer, return_exceptions=True)
             snapshot = list(seen)         # what follows is the harness cleaning up
+            other_states = []
+            for rem, r2 in others:
+                f = r2.response
+                other_states.append([rem, "pending" if not f.done() else "cancelled" if f.cancelled() else
+                                     "raise:" + _name(f.exception(), Error) if f.exception() is not None else "resp"])
         finally:
             try:
                 await ctx.shutdown()
@@ -258,12 +307,40 @@ class AppBench:
             after_shutdown = seen[len(snapshot):]
             loop.set_exception_handler(old_handler)
         return {"seen": snapshot, "resp": resp, "escaped": escaped, "loop_errors": loop_errors,
-                "pending": pending, "after_shutdown": after_shutdown}
+                "pending": pending, "after_shutdown": after_shutdown, "others": other_states}
 
 
 # ---------------------------------------------------------------------------------------------
 # Oracle: the property, read over the arrivals and over what the application saw.
 # ---------------------------------------------------------------------------------------------
+
+def oracle_others(sc, res):
+    """the application's other requests: a transport failure reported for a peer fails every request outstanding
+    to THAT peer (once: a future completes once) and leaves the requests to other peers alone; a Reset of the
+    observing request concerns nobody else; nothing that happens on the observation's token touches them"""
+    if not sc.get("others"):
+        return "", None
+    want = {}
+    order = []
+    for idx in [-1] + list(range(len(sc["arrivals"]))):
+        for w, rem in sc["others"]:
+            if w == idx:
+                order.append(len(order))
+                want[order[-1]] = [rem, "pending"]
+        if idx >= 0:
+            a = sc["arrivals"][idx]
+            if a[1] == "X" and a[2] != 0:
+                failed = a[3] if len(a) > 3 else 0
+                for k in want:
+                    if want[k][0] == failed and want[k][1] == "pending":
+                        want[k][1] = "raise:" + EXC_NAMES[a[2]]
+    got = res["others"]
+    exp = [want[k] for k in sorted(want)]
+    if sc.get("rc") is None and got != exp:
+        return (f"the application's other requests (peer, state): expected {exp}, found {got} -- a transport failure "
+                "concerns exactly the requests outstanding to the peer it is reported for"), "app:other-requests"
+    return "", None
+
 
 def oracle_app(sc, res):
     """-> (verdict, key)"""
@@ -293,7 +370,15 @@ def oracle_app(sc, res):
                     f"request.observation must end, it {'is still pending' if res['pending'] else 'saw'} "
                     f"{seen}"), "app:response-cancelled"
         return "", None
-    # what the property allows / demands, from the arrivals alone (all within far less than 128 s)
+    v, key = oracle_others(sc, res)
+    if v:
+        return v, key
+    # a transport failure reported for ANOTHER peer says nothing about this observation
+    at = sc.get("at") or [0] * len(arr)
+    at = [t for t, a in zip(at, arr) if not (a[1] == "X" and len(a) > 3 and a[3] != 0)]
+    arr = [a for a in arr if not (a[1] == "X" and len(a) > 3 and a[3] != 0)]
+    reset = tuned_reset_ticks(sc.get("tuning"), RFC_RESET_TICKS)
+    # what the property allows / demands, from the arrivals and the clock alone
     first = arr[0]
     accepted = []        # ids of notifications fresher than the last accepted, in order (after the first)
     end = None           # None | "NotObservable" | "ObservationCancelled" | exception name
@@ -308,17 +393,17 @@ def oracle_app(sc, res):
             # "not observable if the first response carries no Observe option" (as every non-2.xx one)
             end = "NotObservable"
         else:
-            last = first[3]
-            for a in arr[1:]:
+            last, tlast = first[3], at[0]
+            for a, t in zip(arr[1:], at[1:]):
                 if a[1] == "X":
                     end = EXC_NAMES[a[2]]
                     break
                 if not is_notification(a[2], a[3]):
                     end, final = "ObservationCancelled", a[4]
                     break
-                if rfc_fresher(last, 0, a[3], 0):
+                if rfc_fresher(last, tlast, a[3], t, reset):
                     accepted.append(a[4])
-                    last = a[3]
+                    last, tlast = a[3], t
     if res["resp"] != want_resp:
         return f"response future: expected {want_resp}, got {res['resp']}", "app:response"
     allowed = accepted + ([final] if final is not None else [])
